@@ -63,6 +63,7 @@ type Scenario struct {
 	Tasks    [][]Op           `json:"tasks,omitempty"`
 	Schedule []int            `json:"schedule,omitempty"` // task index per scheduling decision; -N = advance clock N ns
 	Faults   []Fault          `json:"faults,omitempty"`
+	Cuts     [][2]int64       `json:"cuts,omitempty"` // WAL-prefix crashes: (op index, position within the op's WAL bytes in 1/1000; 1000 = after the op)
 	Note     string           `json:"note,omitempty"`
 }
 
